@@ -242,7 +242,8 @@ func cmdCheck(args []string) {
 	if *tier == "thorough" {
 		to = 60
 	}
-	cfg := &SolverCfg{TimeoutS: to, Dir: dir, Jobs: runtime.NumCPU(), Keep: *dump != "", Seed: seed}
+	// (each obligation races three solver processes: two thirds of the processors' worth of obligations at a time)
+	cfg := &SolverCfg{TimeoutS: to, Dir: dir, Jobs: (2*runtime.NumCPU() + 2) / 3, Keep: *dump != "", Seed: seed}
 	claimsPath := filepath.Join(*root, "claims", id+".txt")
 	claimed := map[string]bool{}
 	for _, l := range readLines(claimsPath) {
@@ -315,28 +316,38 @@ func cmdCheck(args []string) {
 			resOf[ob.Name] = r
 		}
 	}
-	// retry failing claimed obligations once at the long budget with another seed
-	var retry []*Obligation
-	for name := range claimed {
-		if ob, ok := byName[name]; ok && ob.Status == "unknown" {
-			retry = append(retry, ob)
-		}
-	}
-	if len(spec.Files) > 0 {
+	// retry obligations that matter and were not decided: first with the same seed, a longer budget and fewer
+	// solver processes at once (an undecided query is most often one that lost the race for the processors), then
+	// once more at the long budget with another seed
+	collectRetry := func() []*Obligation {
+		var retry []*Obligation
 		for name, ob := range byName {
-			if !claimed[name] && sweepKind(ob.Kind) && ob.Status == "unknown" {
+			if ob.Status != "unknown" || ob.Kind == "cover" {
+				continue
+			}
+			if claimed[name] || supportKind(ob.Kind) && solveThis(ob) || (len(spec.Files) > 0 && sweepKind(ob.Kind) && solveThis(ob)) {
 				retry = append(retry, ob)
 			}
 		}
+		return retry
 	}
-	if len(retry) > 0 && os.Getenv("GOVC_NO_RETRY") == "" {
-		cfg2 := &SolverCfg{TimeoutS: 60, Dir: dir, Jobs: runtime.NumCPU(), Seed: seed + 7}
-		set := map[*Obligation]bool{}
-		for _, ob := range retry {
-			set[ob] = true
-			ob.Status = ""
+	if os.Getenv("GOVC_NO_RETRY") == "" {
+		for pass, rc := range []*SolverCfg{
+			{TimeoutS: 30, Dir: dir, Jobs: (runtime.NumCPU() + 2) / 3, Seed: seed},
+			{TimeoutS: 60, Dir: dir, Jobs: (runtime.NumCPU() + 2) / 3, Seed: seed + 7},
+		} {
+			retry := collectRetry()
+			if len(retry) == 0 {
+				break
+			}
+			_ = pass
+			set := map[*Obligation]bool{}
+			for _, ob := range retry {
+				set[ob] = true
+				ob.Status = ""
+			}
+			solveAll(results, rc, func(ob *Obligation) bool { return set[ob] })
 		}
-		solveAll(results, cfg2, func(ob *Obligation) bool { return set[ob] })
 	}
 
 	if *update {
@@ -346,7 +357,11 @@ func cmdCheck(args []string) {
 				continue
 			}
 			if ob.Status == "discharged" && !outside[ob.Fn] {
-				if ob.Ms > int64(to*1000*7/10) {
+				slowest := ob.Ms
+				if ob.MaxPartMs > 0 {
+					slowest = ob.MaxPartMs
+				}
+				if slowest > int64(to*1000*7/10) {
 					notes = append(notes, "unclaimed (slow): "+name)
 					continue
 				}
@@ -588,8 +603,8 @@ func cmdCheck(args []string) {
 	}
 	cov := map[string]interface{}{
 		"obligations": total, "discharged": discharged,
-		"checker_cmd":  fmt.Sprintf("/verif/bin/govc check --tier %s %s", *tier, id),
-		"trusted_base": trusted,
+		"checker_cmd":              fmt.Sprintf("/verif/bin/govc check --tier %s %s", *tier, id),
+		"trusted_base":             trusted,
 		"functions_under_contract": funcs,
 		"per_obligation":           perOb,
 		"back_ends":                solverCount,
@@ -686,7 +701,8 @@ func runReplayDriver(root, repo, driver string, ob *Obligation, replayPath strin
 // supportKind: obligations whose conclusion is assumed by the rest of the function once they have been asserted.
 func supportKind(k string) bool {
 	switch k {
-	case "inv-entry", "inv-preserved", "pre", "lockinv", "loop-frame":
+	case "inv-entry", "inv-preserved", "pre", "lockinv", "loop-frame", "frame-heap", "frame-object":
+		// (a modifies clause is what callers forget at a call: an unproved frame makes their proofs unsound)
 		return true
 	}
 	return false
